@@ -230,3 +230,59 @@ fn option_into_option_once() {
     }
     assert_each_dropped_once();
 }
+
+// ---- asymmetric payloads: one arm plain data, the other owning --------------------------------------------
+// (Drop / Clone / conversions must select the arm by `is_ok` alone, whatever drop glue the two types have)
+
+/// plain-data arm with a bit pattern that is neither a valid pointer nor a small counter
+#[derive(Clone, Copy, PartialEq)]
+#[repr(C)]
+pub struct Plain(pub u64);
+
+macro_rules! asym_harnesses {
+    ($modname:ident, $T:ty, $E:ty, $mk_ok:expr, $mk_err:expr) => {
+        mod $modname {
+            use super::*;
+
+            #[kani::proof]
+            #[kani::unwind(10)]
+            fn asym_drop_once() {
+                let ok: bool = kani::any();
+                let d: DiplomatResult<$T, $E> = if ok { Ok($mk_ok) } else { Err($mk_err) }.into();
+                assert!(d.is_ok == ok);
+                drop(d);
+                assert_each_dropped_once();
+                kani::cover!(ok);
+                kani::cover!(!ok);
+            }
+
+            #[kani::proof]
+            #[kani::unwind(10)]
+            fn asym_clone_convert_drop() {
+                let ok: bool = kani::any();
+                let d: DiplomatResult<$T, $E> = if ok { Ok($mk_ok) } else { Err($mk_err) }.into();
+                let c = d.clone();
+                assert!(c.is_ok == ok);
+                let first: bool = kani::any();
+                if first {
+                    drop(d);
+                    let r: Result<$T, $E> = c.into();
+                    assert!(r.is_ok() == ok);
+                    drop(r);
+                } else {
+                    drop(c);
+                    let r: Result<$T, $E> = d.into();
+                    assert!(r.is_ok() == ok);
+                    drop(r);
+                }
+                assert_each_dropped_once();
+                kani::cover!(ok && first);
+                kani::cover!(!ok && !first);
+            }
+        }
+    };
+}
+asym_harnesses!(c03_asym_plain_tok, Plain, TokE, Plain(0xDEAD_BEEF_0BAD_F00D), TokE::new());
+asym_harnesses!(c03_asym_unit_tok, (), Tok, (), Tok::new());
+asym_harnesses!(c03_asym_tok_plain, Tok, Plain, Tok::new(), Plain(0xDEAD_BEEF_0BAD_F00D));
+asym_harnesses!(c03_asym_tok_unit, TokE, (), TokE::new(), ());
